@@ -75,6 +75,9 @@ MUTANTS = [
     # the repaired while test (5f7ee5c)
     ('C01', 'supp/nast.py', r"test_start\.loop\(body\)", "body_start.loop(body)", 'C01-R5'),
     ('C01', 'supp/nast.py', r"self\.make_flow\('while-else', \[skipped\]\)", "self.make_flow('while-else', [cur])", 'C01-R5'),
+    # unnamed buffers and path climbing (relative imports)
+    ('C08', 'supp/assistant.py', r"    source = Source\(source, filename, position\)\n    filename = source\.filename\n    ctx", "    source = Source(source, filename, position)\n    ctx", 'C08-R1'),
+    ('C08', 'supp/project.py', r"                if parent == root:  # the root directory\n                    break\n", "", 'C08-R4'),
     # the repaired short circuit (e81a976)
     ('C01', 'supp/nast.py', r"self\.make_flow\('boolop', \[exits\[-1\]\]\)", "self.make_flow('boolop', [exits[0]])", 'C01-R5'),
     ('C03', 'supp/nast.py', r"self\.flow = self\.make_flow\('join', exits\)", "self.flow = self.make_flow('join', exits[-1:])", 'C03-R1'),
